@@ -507,7 +507,22 @@ class QsSim:
         self._stamp("restart", self.epoch)
         self._notify(self.observer.on_restart, self.clock.time())
         self.clock.mono += PHASE  # the new server's timer phase differs from every earlier request phase
-        self._start_server()
+        try:
+            self._start_server()
+        except (HarnessError, Exception) as e:  # noqa: BLE001
+            # the queue server does not come up from the state it saved itself
+            import traceback
+            tb = traceback.format_exc()
+            self.violation = self.violation or Violation(
+                "R-restart", f"the queue server cannot start from its own saved state: {type(e).__name__}: {e}",
+                detail={"traceback": tb[-1200:]})
+            # bring up a fresh, empty server so that the run can end in an orderly way
+            import os as _os
+            try:
+                _os.unlink(_os.path.join(self.data_dir, "workq.pickle"))
+            except OSError:
+                pass
+            self._start_server()
         self.clock.mono += PHASE
         gevent.idle()
         return live
